@@ -3,3 +3,6 @@ import Properties.C07
 import Properties.DrawBounds
 import Properties.C05
 import Properties.C04
+import Properties.C07b
+import Properties.Statement
+import Properties.C0809
